@@ -7,7 +7,7 @@ import KrakenModel.Proof.C03Live
   the correspondence check ties to the real code.  A *schedule* is any list of actions
   `spawn pi payload` (a goroutine calls `WritePiece(payload, pi)`), `step tid k` (thread `tid`
   performs its next atomic step, a write carrying `k` bytes), `reopen` (a new Torrent instance
-  over the same store): every number of writers, every payload sequence, every interleaving and
+  over the same store), `recreate` (DeleteTorrent + CreateTorrent): every number of writers, every payload sequence, every interleaving and
   every chunking of the file writes is a schedule.  `crc`, the blob and the piece length are
   arbitrary; the metainfo is the blob's (`MetaInfo.ofBlob`, what `core.NewMetaInfo` computes).
 
@@ -82,18 +82,18 @@ theorem exclusive_writer (a b : Nat) (ta tb : Thread)
     (hha : holds ta.pc = true) (hhb : holds tb.pc = true) : ta.idx ≠ tb.idx :=
   (run_good crc pl blob hpl sched hsep).excl a b ta tb ha hb hab hha hhb
 
-/-- **C03 (5)** Whatever happens next (any action: a write of any payload to any index by any
-    thread, a chunk of a concurrent write, a reopen), a complete piece stays complete and its bytes
+/-- **C03 (5)** Whatever happens next (any action except deleting the torrent: a write of any payload
+    to any index by any thread, a chunk of a concurrent write, a reopen), a complete piece stays complete and its bytes
     do not change — in particular a corrupt or duplicate payload for a complete piece never
     reaches the file. -/
-theorem complete_piece_stable (a : Action) (ha : SepAction crc pl blob a) (i : Nat)
+theorem complete_piece_stable (a : Action) (ha : SepAction crc pl blob a) (hnr : a ≠ .recreate) (i : Nat)
     (hc : (run crc (MetaInfo.ofBlob crc pl blob) sched).pieces[i]? = some .complete) :
     (step crc (run crc (MetaInfo.ofBlob crc pl blob) sched) a).pieces[i]? = some .complete ∧
     ((step crc (run crc (MetaInfo.ofBlob crc pl blob) sched) a).file.drop (pl * i)).take pl =
       ((run crc (MetaInfo.ofBlob crc pl blob) sched).file.drop (pl * i)).take pl := by
   have hg := run_good crc pl blob hpl sched hsep
   have hg' := step_good hpl hg a ha
-  have hc' := complete_mono hg a i hc
+  have hc' := complete_mono hg a hnr i hc
   exact ⟨hc', by rw [complete_piece_bytes hg' i hc', complete_piece_bytes hg i hc]⟩
 
 /-- **C03 (6)** A piece is dirty only while a writer holds it: when no call is in flight every piece
